@@ -76,6 +76,8 @@ pub struct Opts {
     pub force_last: Option<bool>,
     /// run with `RewriteContext::inside_macro` set
     pub inside_macro: bool,
+    /// report `body` / `bodyn` (and `ret`) only, run none of the rewriters
+    pub enc_only: bool,
 }
 
 fn b(x: bool) -> String {
@@ -206,6 +208,14 @@ impl<'a, 'c> Walk<'a, 'c> {
             return;
         };
         let context = self.context;
+        if self.opts.enc_only {
+            let kv = vec![
+                ("body", enc(context, body, false)),
+                ("bodyn", enc(context, body, true)),
+            ];
+            self.rec("arm", arm.span, kv);
+            return;
+        }
         let is_last = self.opts.force_last.unwrap_or(is_last_arm);
         let pat = context.snippet(arm.pat.span).to_owned();
         let pats_str = if self.opts.pats_ml {
@@ -271,6 +281,15 @@ impl<'a, 'c> Walk<'a, 'c> {
 
     fn closure(&mut self, ex: &ast::Expr, c: &ast::Closure) {
         let context = self.context;
+        if self.opts.enc_only {
+            let kv = vec![
+                ("body", enc(context, &c.body, false)),
+                ("bodyn", enc(context, &c.body, true)),
+                ("ret", b(matches!(c.fn_decl.output, ast::FnRetTy::Ty(..)))),
+            ];
+            self.rec("closure", ex.span, kv);
+            return;
+        }
         let out = crate::closures::rewrite_closure(
             &c.binder,
             c.constness,
